@@ -86,6 +86,20 @@ class RStr:
         return "str%r" % (bytes(self.b),)
 
 
+class Opaque:
+    """a value the evaluator does not model (a DER writer): calls on it have no value, closures handed to such calls
+    are run, and calls whose name matches `Eval.capture` are recorded with their evaluated arguments"""
+
+    def __repr__(self):
+        return "<opaque>"
+
+    def key(self):
+        return ("opaque", id(self))
+
+
+OPAQUE = Opaque()
+
+
 class Closure:
     def __init__(self, node, env):
         self.node = node
@@ -146,6 +160,8 @@ class Eval:
         self.budget = budget
         self.depth = 0
         self._consts = {}
+        self.capture = None       # suffix of a callee whose evaluated arguments are recorded in self.captured
+        self.captured = []
 
     # -- entry points -----------------------------------------------------------------------------------------------
     def call(self, fn, args):
@@ -577,6 +593,15 @@ class Eval:
     # std model ---------------------------------------------------------------------------------------------------
     def std(self, inst, callee, a, n):
         last = short(callee)
+        if any(isinstance(x_, Opaque) for x_ in a) or (self.capture and any(isinstance(x_, (Closure, FnItem)) for x_ in a) and (callee or "").startswith("yasna::")):
+            # an effect on an unmodelled object (DER writer): record it if asked, run the closures it is given
+            if self.capture and (callee or "").endswith(self.capture):
+                self.captured.append([x_ for x_ in a if not isinstance(x_, Opaque)])
+            for x_ in a:
+                if isinstance(x_, (Closure, FnItem)):
+                    np_ = len(x_.node["params"]) if isinstance(x_, Closure) else len(self.crate.bodies.get(x_.path, {}).get("params", []))
+                    self.apply(x_, [OPAQUE] * np_)
+            return OPAQUE
         ty = (n or {}).get("ty", "")
         rty = ((n or {}).get("recv") or {}).get("ty", "") if n else ""
         full = inst or callee or ""
@@ -934,6 +959,10 @@ class Eval:
             return Some(c) if (0 <= c < 0xD800 or 0xE000 <= c <= 0x10FFFF) else NONE
         if last == "index" and len(a) == 2:
             return self.index(a[0], a[1])
+        if self.capture:
+            # effect-capturing mode: an unmodelled foreign call yields an unmodelled value (using it in a condition or
+            # in arithmetic is still Unsupported)
+            return OPAQUE
         raise Unsupported("std function %s" % full)
 
     # -- patterns ---------------------------------------------------------------------------------------------------
